@@ -762,7 +762,7 @@ func (w *vkWorld) vkKeyPairs(rot int, q vkQuery, path []authsim.Query) {
 		key  authsim.Key
 		zone string
 	}
-	var keys, resigns []cand
+	var keys, selfKeys, resigns []cand
 	for pos, ex := range path {
 		z := w.u.HostedZone(ex.Server, ex.QName, ex.QType)
 		if z == nil {
@@ -773,6 +773,9 @@ func (w *vkWorld) vkKeyPairs(rot int, q vkQuery, path []authsim.Query) {
 		if vkKindByName("attacker-key").Fn(ctx, honest.Copy()) {
 			keys = append(keys, cand{pos, ex.Key(), z.Apex})
 		}
+		if vkKindByName("attacker-key-selfsigned").Fn(ctx, honest.Copy()) {
+			selfKeys = append(selfKeys, cand{pos, ex.Key(), z.Apex})
+		}
 		if vkKindByName("attacker-resign").Fn(ctx, honest.Copy()) {
 			resigns = append(resigns, cand{pos, ex.Key(), z.Apex})
 		}
@@ -782,6 +785,13 @@ func (w *vkWorld) vkKeyPairs(rot int, q vkQuery, path []authsim.Query) {
 		for _, r := range resigns {
 			if k.zone == r.zone {
 				scen = append(scen, vkScenario{Rot: rot, Q: q, Tampers: []vkTamper{{Key: k.key, Kind: "attacker-key"}, {Key: r.key, Kind: "attacker-resign"}}})
+			}
+		}
+	}
+	for _, k := range selfKeys {
+		for _, r := range resigns {
+			if k.zone == r.zone {
+				scen = append(scen, vkScenario{Rot: rot, Q: q, Tampers: []vkTamper{{Key: k.key, Kind: "attacker-key-selfsigned"}, {Key: r.key, Kind: "attacker-resign"}}})
 			}
 		}
 	}
